@@ -95,9 +95,10 @@ FE1 ==       \* flush(): IsEmpty? ; GetBytes ; sendmsg
     /\ UNCHANGED <<ops, opi, fsig, blen, bvis, pin, drained, submitted, reg, wt, flock, timer, ppc, pvec, pk, pev>>
     /\ hz' = (hz \/ (blen # 0 /\ pin))
 
-FSkl ==      \* Skip: Len() check ("not enough": nothing is skipped)
-    /\ fpc = "f_skl" /\ fpc' = IF blen < fk THEN "f_e2" ELSE "f_sk"
-    /\ UNCHANGED <<ops, opi, fvec, fk, fsig, blen, bvis, fin, pin, sock, drained, submitted, reg, wt, flock, timer, ppc, pvec, pk, pev, rets, hz>>
+FSkl ==      \* Skip: Len() check; "not enough" (only possible when the poller's write path interfered): flush returns that error
+    /\ fpc = "f_skl"
+    /\ IF blen < fk THEN Ret("skiperr") /\ fin' = FALSE ELSE fpc' = "f_sk" /\ UNCHANGED <<rets, fin>>
+    /\ UNCHANGED <<ops, opi, fvec, fk, fsig, blen, bvis, pin, sock, drained, submitted, reg, wt, flock, timer, ppc, pvec, pk, pev, hz>>
 
 FSk ==       \* recalLen(-k), walk the nodes, Release
     /\ fpc = "f_sk"
